@@ -129,3 +129,27 @@ Definition var_known (v : string * string * string) : bool :=
 Definition runtime_mutable (c : sclass) : bool := match c with Guarded => true | _ => false end.
 Definition guarded_fields : list (string * string * string * string) :=
   map fst (filter (fun e => runtime_mutable (snd e)) field_table).
+
+(** Reviewed in-place big-number arithmetic (receiver not syntactically fresh): in each of these the receiver
+    is a value the callee allocated for this call (SuggestGasTipCap returns big.NewInt(0); the block bloom is
+    decoded from the transient store; v was re-bound to new(big.Int).Sub(v, 35)) — nobody else holds it. *)
+Definition inplace_table : list (string * string * string) := [
+  ("eth/rpc/backend", "GasPrice", "result.Add(result,head.BaseFee)");
+  ("eth/rpc/backend", "SetTxDefaults", "price.Add(price,head.BaseFee)");
+  ("x/evm/keeper", "CalcBloomFromLogs", "bloomInt.Or(bloomInt,big.NewInt(0).SetBytes(gethcore.LogsBloom(newLogs)))");
+  ("x/evm", "DeriveChainID", "v.Div(v,big.NewInt(2))")
+].
+
+(** Reviewed functions that return a package-level variable itself: the three precompile addresses are arrays
+    (copied by value); BaseFeeMicronibiPerGas hands out the shared *big.Int BASE_FEE_MICRONIBI — a latent alias whose
+    callers only read it or pass it to NativeToWei (which allocates); any in-place arithmetic on it would show up in
+    [inplace_sites]. *)
+Definition alias_table : list (string * string * string) := [
+  ("x/evm/keeper", "BaseFeeMicronibiPerGas", "evm.BASE_FEE_MICRONIBI");
+  ("x/evm/precompile", "Address", "PrecompileAddr_FunToken");
+  ("x/evm/precompile", "Address", "PrecompileAddr_Oracle");
+  ("x/evm/precompile", "Address", "PrecompileAddr_Wasm")
+].
+
+Definition inplace_known (s : string * string * string) : bool := existsb (str3_eqb s) inplace_table.
+Definition alias_known (s : string * string * string) : bool := existsb (str3_eqb s) alias_table.
